@@ -385,7 +385,7 @@ class SpecEval(object):
         if isinstance(cont, str) or kind_of(cont) == 'str':
             return z3.Contains(str_of(cont), str_of(x))
         if kind_of(cont) == 'seq':
-            return z3.Contains(cont, z3.Unit(val_of(x)))
+            return z3.Contains(self.seqterm(cont), z3.Unit(val_of(x)))
         if isinstance(cont, SV):
             ty = Ty.strip_opt(cont.ty)
             if isinstance(ty, (Ty.TDict, Ty.TSet)):
